@@ -5,7 +5,9 @@ import json, os, subprocess, sys, tempfile
 V = os.path.dirname(os.path.dirname(os.path.abspath(__file__)))
 tmp = tempfile.mktemp(suffix=".json")
 env = dict(os.environ, VERIF_C01_DUMP=tmp, VERIF_NO_EVIDENCE="1")
-subprocess.run([os.path.join(V, "check"), "C01", "--tier", "thorough"], env=env, stdout=subprocess.DEVNULL, stderr=subprocess.DEVNULL)
+for cfg in ("default", "nodefault", "serialization"):
+    fd = subprocess.run([os.path.join(V, "check"), "facts:" + cfg], text=True, capture_output=True).stdout.strip().splitlines()[-1]
+    subprocess.run([os.path.join(V, "check"), "C01", "--facts", fd], env=env, stdout=subprocess.DEVNULL, stderr=subprocess.DEVNULL)
 dump = json.load(open(tmp)); os.unlink(tmp)
 er = {}
 for fn_, kind, sig, esig in dump:
